@@ -25,11 +25,12 @@ import vlib
 import serverlib as sl
 
 THEOREMS = ["C09_definition", "C09_references", "C09_document_symbol", "C09_folding_range", "C09_inlay_hint",
-            "C09_document_link", "C09_diagnostics", "C09_plumbing_is_source", "C09_pipeline", "C09_position_faithful",
+            "C09_document_link", "C09_diagnostics", "C09_plumbing_is_source", "C09_pipeline", "C09_position_faithful", "C09_from_validity",
+            "C09_pipeline_folding",
             "C09_old_refuted"]
 # the gen files in the cone of props/C09.vo: GenServerConv, GenLineIndex (plumbing) and, through Pipeline / C17, the grammar side
 TRANSLATORS = ["t_serverconv", "t_lineindex", "t_tokens", "t_lextables", "t_unicode", "t_grammar", "t_grammarcert", "t_ast",
-               "t_foldkinds"]
+               "t_foldkinds", "t_completion"]
 TRUSTED = [
     "Coq 8.16.1 kernel; no axioms (Print Assumptions: closed under the global context)",
     "model/ServerProto.v part 2 as a model of the conversion step of the handlers of server.rs and of to_proto.rs (tied to the code by the correspondence run of this check); model/LineIndex.v as a model of line_index.rs (tied by checks/C10.py); URIs identified with file ids (the Vfs file set is a bijection between ids and paths; Url::from_file_path/to_file_path are inverse on the absolute paths used)",
